@@ -222,6 +222,50 @@ pub fn build_core(proto: &str, key: &[u8], nonce: &[u8], msg: &str, footer: Opti
     })
 }
 
+/// several tokens from ONE Paseto builder object
+pub fn build_core_many(proto: &str, key: &[u8], nonce: &[u8], msg: &str, footer: Option<&str>, assertion: Option<&str>, times: usize) -> Vec<Outcome> {
+    macro_rules! many_local {
+        ($V:ty, $ia:tt) => {{
+            let k = PasetoSymmetricKey::<$V, Local>::from(Key::<32>::from(arr::<32>(key)));
+            let nk = Key::<32>::from(arr::<32>(nonce));
+            let n = PasetoNonce::<$V, Local>::from(&nk);
+            let mut b = Paseto::<$V, Local>::builder();
+            b.set_payload(Payload::from(msg));
+            if let Some(f) = footer { b.set_footer(Footer::from(f)); }
+            local_build!(@ia $ia, b, assertion);
+            (0..times).map(|_| guarded(|| b.try_encrypt(&k, &n).map_err(|e| format!("{:?}", e)))).collect()
+        }};
+    }
+    macro_rules! many_public {
+        ($V:ty, $sk:expr, $ia:tt) => {{
+            let sk = $sk;
+            let mut b = Paseto::<$V, Public>::builder();
+            b.set_payload(Payload::from(msg));
+            if let Some(f) = footer { b.set_footer(Footer::from(f)); }
+            local_build!(@ia $ia, b, assertion);
+            (0..times).map(|_| guarded(|| b.try_sign(&sk).map_err(|e| format!("{:?}", e)))).collect()
+        }};
+    }
+    match proto {
+        "v1.local" => many_local!(V1, no),
+        "v3.local" => many_local!(V3, yes),
+        "v4.local" => many_local!(V4, yes),
+        "v2.local" => {
+            let k = PasetoSymmetricKey::<V2, Local>::from(Key::<32>::from(arr::<32>(key)));
+            let nk = Key::<32>::from(arr::<32>(nonce));
+            let n = PasetoNonce::<V2, Local>::from(&nk);
+            let mut b = Paseto::<V2, Local>::builder();
+            b.set_payload(Payload::from(msg));
+            if let Some(f) = footer { b.set_footer(Footer::from(f)); }
+            (0..times).map(|_| guarded(|| b.try_encrypt(&k, &n).map_err(|e| format!("{:?}", e)))).collect()
+        }
+        "v1.public" => many_public!(V1, PasetoAsymmetricPrivateKey::<V1, Public>::from(key), no),
+        "v2.public" => { let k = Key::<64>::from(arr::<64>(key)); many_public!(V2, PasetoAsymmetricPrivateKey::<V2, Public>::from(&k), no) }
+        "v3.public" => { let k = Key::<48>::from(arr::<48>(key)); many_public!(V3, PasetoAsymmetricPrivateKey::<V3, Public>::from(&k), yes) }
+        _ => { let k = Key::<64>::from(arr::<64>(key)); many_public!(V4, PasetoAsymmetricPrivateKey::<V4, Public>::from(&k), yes) }
+    }
+}
+
 pub fn parse_core(proto: &str, token: &str, key: &[u8], footer: Option<&str>, assertion: Option<&str>) -> Outcome {
     let f = footer.map(Footer::from);
     let a = assertion.map(ImplicitAssertion::from);
@@ -410,9 +454,19 @@ fn main() {
                 let msg = env.str_of(&st["message"]).unwrap_or_default();
                 let f = env.str_of(&st["footer"]);
                 let a = env.str_of(&st["assertion"]);
+                let times = st["times"].as_u64().unwrap_or(1);
+                if times > 1 {
+                    // the same core builder object is used for several tokens (C01/C02: every one of them must round-trip)
+                    let outs = build_core_many(st["proto"].as_str().unwrap_or(""), &key, &nonce, &msg, f.as_deref(), a.as_deref(), times as usize);
+                    for (i, o) in outs.into_iter().enumerate() {
+                        trace.push(json!({"build_core": format!("{}_{}", out, i), "result": o.text()}));
+                        env.outs.insert(format!("{}_{}", out, i), o);
+                    }
+                } else {
                 let o = build_core(st["proto"].as_str().unwrap_or(""), &key, &nonce, &msg, f.as_deref(), a.as_deref());
                 trace.push(json!({"build_core": out, "result": o.text()}));
                 env.outs.insert(out, o);
+                }
             }
             "parse_core" => {
                 let key = env.bytes_of(&st["key"]);
